@@ -241,7 +241,7 @@ func checkRay3(c *vlib.Case, s *scene3, v *variant3, r *model3d.Ray, qkind strin
 					rayWitness(s, v, r, map[string]interface{}{"lost_triangle": fmtTri(h.tri), "lost_scale": hx(h.scale), "query_kind": qkind}))
 			} else {
 				c.Undecided("coll3d.ray.lost-hit-at-box-boundary")
-				c.Sample("undecided-lost-ray-hit", 4, rayWitness(s, v, r, map[string]interface{}{"lost_triangle": decTri(h.tri) + " = " + fmtTri(h.tri), "lost_scale": hx(h.scale), "query_kind": qkind}))
+				c.Sample("undecided-lost-ray-hit", 1, rayWitness(s, v, r, map[string]interface{}{"lost_triangle": decTri(h.tri) + " = " + fmtTri(h.tri), "lost_scale": hx(h.scale), "query_kind": qkind}))
 			}
 		}
 	}
@@ -250,8 +250,7 @@ func checkRay3(c *vlib.Case, s *scene3, v *variant3, r *model3d.Ray, qkind strin
 	// --- FirstRayCollision
 	minAll, minRobust := math.Inf(1), math.Inf(1)
 	var bruteFirst []hit3
-	for i, t := range v.tris {
-		_ = i
+	for _, t := range v.tris {
 		if rc, ok := t.FirstRayCollision(r); ok {
 			bruteFirst = append(bruteFirst, hit3{t, rc.Scale})
 			if rc.Scale < minAll {
